@@ -68,6 +68,10 @@ type Case struct {
 	// configuration that makes the plugin use another key (other key spec, other hash); the judged
 	// signing follows without that configuration
 	OtherKeyFirst string `json:"otherKeyFirst,omitempty"` // key spec of the earlier signing
+	// StrangerFirst (oci): before the verification, somebody the policy does not trust has attached a
+	// signature of the OTHER envelope format to the artifact; it is listed first and fails, the
+	// library's own signature comes second and must verify all the same
+	StrangerFirst bool `json:"strangerFirst,omitempty"`
 }
 
 type failingReader struct {
@@ -195,6 +199,16 @@ func (r *memRepo) PushSignature(ctx context.Context, mediaType string, blob []by
 	}{mediaType, blob, annotations})
 	return ocispec.Descriptor{MediaType: mediaType, Digest: digest.FromBytes(blob), Size: int64(len(blob))},
 		ocispec.Descriptor{MediaType: ocispec.MediaTypeImageManifest, Digest: digest.FromString(fmt.Sprint("sig", len(r.sigs)-1)), Size: int64(len(r.sigs) - 1)}, nil
+}
+
+var (
+	strangerOnce sync.Once
+	stranger     *pki.Chain
+)
+
+func strangerChain() *pki.Chain {
+	strangerOnce.Do(func() { stranger = pki.NewChain(pki.ChainOpts{Intermediates: 1, Name: "c07 stranger"}) })
+	return stranger
 }
 
 // ---- chains ----
@@ -370,8 +384,21 @@ func roundTrip(c *Case) (string, string) {
 			return "C07:sign-result:" + site, fmt.Sprintf("SignOCI returned %v and pushed %d signatures", artDesc.Digest, len(repo.sigs))
 		}
 		env = repo.sigs[0].blob
-		if repo.sigs[0].mt != c.Format {
-			return "C07:pushed-media-type:" + site, fmt.Sprintf("signature pushed as %q, requested %q", repo.sigs[0].mt, c.Format)
+		if c.StrangerFirst {
+			other := envb.MTJWS
+			if c.Format == envb.MTJWS {
+				other = envb.MTCOSE
+			}
+			st := strangerChain()
+			senv := envb.Build(envb.Spec{Format: other, Payload: envb.PayloadFor(c.Desc.MediaType, c.Desc.Digest.String(), c.Desc.Size, nil), ContentType: envb.PayloadType,
+				Scheme: envb.SchemeX509, SigningTime: time.Now().Add(-time.Minute), Chain: st.X509(), Key: st.Leaf().Key})
+			mine := repo.sigs[0]
+			repo.sigs = repo.sigs[:0]
+			repo.PushSignature(ctx, other, senv, c.Desc, nil)
+			repo.sigs = append(repo.sigs, mine)
+		}
+		if mine := repo.sigs[len(repo.sigs)-1]; mine.mt != c.Format {
+			return "C07:pushed-media-type:" + site, fmt.Sprintf("signature pushed as %q, requested %q", mine.mt, c.Format)
 		}
 		vopts.OCITrustPolicy = kit.OCIDoc("p", sv, []string{"ca:x"}, ids)
 		v, err := verifier.NewVerifierWithOptions(ts, vopts)
@@ -561,6 +588,7 @@ func drawCase(rt *rapid.T) *Case {
 			d.ArtifactType = "application/vnd.example.artifact"
 		}
 		c.Desc = d
+		c.StrangerFirst = rapid.IntRange(0, 3).Draw(rt, "strangerFirst") == 0
 		for k := range d.Annotations { // user metadata must not collide with the artifact's annotations
 			delete(c.Metadata, k)
 		}
@@ -607,6 +635,9 @@ func TestC07_RoundTrip(t *testing.T) {
 		if c.Kind == "oci" && len(c.Desc.Annotations) > 0 {
 			cl = append(cl, "artifact-annotations")
 		}
+		if c.StrangerFirst {
+			cl = append(cl, "untrusted-signature-of-other-format-listed-first")
+		}
 		if c.EmptyAnn {
 			cl = append(cl, "artifact-annotations-empty-map")
 		}
@@ -625,7 +656,7 @@ func TestC07_RoundTrip(t *testing.T) {
 				cl = append(cl, "after-failed-read")
 			}
 		}
-		rec.Case(cl, true, stats.Fingerprint(c.KeySpec, c.Format, c.Signer, c.Kind, fmt.Sprintf("%+v", c.Desc), c.EmptyAnn, c.BlobLen, c.BlobSeed, c.MediaType, strings.Join(mk, ";"), c.ExpirySecs, c.Identity, c.SignReader, c.VerReader, c.FailFirst, c.VerifyOmit, c.OtherKeyFirst), func() any { return c })
+		rec.Case(cl, true, stats.Fingerprint(c.KeySpec, c.Format, c.Signer, c.Kind, fmt.Sprintf("%+v", c.Desc), c.EmptyAnn, c.BlobLen, c.BlobSeed, c.MediaType, strings.Join(mk, ";"), c.ExpirySecs, c.Identity, c.SignReader, c.VerReader, c.FailFirst, c.VerifyOmit, c.OtherKeyFirst, c.StrangerFirst), func() any { return c })
 		key, msg := roundTrip(c)
 		if key == "harness" {
 			rt.Fatalf("harness: %s", msg)
